@@ -207,6 +207,58 @@ var solvers = []solverSpec{
 	{"z3", func(t int) []string { return z3Args("z3", t) }},
 }
 
+// relSolvers: the portfolio for relational goals (quantifier-heavy: cvc5 and z3 with eager
+// instantiation decide in well under a second what default z3 often does not).
+var relSolvers = []solverSpec{
+	{"cvc5", func(t int) []string {
+		return []string{"cvc5", fmt.Sprintf("--tlimit=%d", t*1000), "--lang=smt2", "-"}
+	}},
+	{"z3-new/eager", func(t int) []string { return append(z3Args("z3-new", t)[:2], "smt.qi.eager_threshold=100", "-in") }},
+	{"z3-new", func(t int) []string { return z3Args("z3-new", t) }},
+}
+
+// raceSolvers runs the given solvers concurrently and returns the first definitive answer.
+func raceSolvers(sps []solverSpec, query string, timeoutS int) (string, string, time.Duration) {
+	type ans struct {
+		res, name string
+	}
+	t0 := time.Now()
+	ctx, cancel := context.WithTimeout(context.Background(), time.Duration(timeoutS+2)*time.Second)
+	defer cancel()
+	ch := make(chan ans, len(sps))
+	for _, sp := range sps {
+		go func(sp solverSpec) {
+			args := sp.args(timeoutS)
+			cmd := exec.CommandContext(ctx, args[0], args[1:]...)
+			cmd.Stdin = strings.NewReader(query)
+			var out bytes.Buffer
+			cmd.Stdout = &out
+			cmd.Stderr = &out
+			cmd.Run()
+			res := "unknown"
+			for _, line := range strings.Split(out.String(), "\n") {
+				line = strings.TrimSpace(line)
+				if strings.HasPrefix(line, "WARNING") || line == "" {
+					continue
+				}
+				if line == "unsat" || line == "sat" {
+					res = line
+				}
+				break
+			}
+			ch <- ans{res, sp.name}
+		}(sp)
+	}
+	last := "unknown"
+	for range sps {
+		a := <-ch
+		if a.res == "unsat" || a.res == "sat" {
+			return a.res, a.name, time.Since(t0)
+		}
+	}
+	return last, "", time.Since(t0)
+}
+
 func runSolver(sp solverSpec, query string, timeoutS int) (string, string, time.Duration) {
 	ctx, cancel := context.WithTimeout(context.Background(), time.Duration(timeoutS+2)*time.Second)
 	defer cancel()
@@ -261,7 +313,25 @@ func (o *Obl) discharge(timeoutS int) {
 	}
 	var total time.Duration
 	var details []string
-	for _, sp := range solvers {
+	sps := solvers
+	if o.Kind == "rel" && !o.Canary {
+		// relational goals: race the three configurations, first definitive answer wins
+		res, name, d := raceSolvers(relSolvers, q, timeoutS)
+		o.TimeMS = int(d / time.Millisecond)
+		o.Solver = name
+		switch res {
+		case "unsat":
+			o.Status = "discharged"
+		case "sat":
+			o.Status = "failed"
+			o.Detail = "sat"
+		default:
+			o.Status = "unknown"
+			o.Detail = "cvc5, z3-new/eager, z3-new: no answer within the limit"
+		}
+		return
+	}
+	for _, sp := range sps {
 		tmo := timeoutS
 		if o.Canary && tmo > 2 {
 			tmo = 2
